@@ -107,7 +107,82 @@ def rules(model: Model, tier: str) -> List[RuleResult]:
     from .c18 import _case
     CS = RuleResult(PROP, "C03-C", "pre-dispatch comparisons of `method` are case-insensitive (the family an algorithm runs in does not depend on the spelling)", min_instances=4)
     _case(model, CS)
-    return [W, W2, P, RC, RZ, RB, SH, TC, KT, CS, _R11]
+    # roles of the arguments of the termination test: check(x, y, dx) tests y against the f-tolerances and dx against the x-tolerances
+    CK = RuleResult(PROP, "C03-A", "terminator.check(x, y, dx): y involves the function value at x, dx (the step) does not", min_instances=2)
+    for f in sorted(loops, key=lambda f: f.fq):
+        _check_argument_roles(f, CK)
+    return [W, W2, P, RC, RZ, RB, SH, TC, KT, CS, CK, _R11]
+
+
+def _check_argument_roles(f: FuncInfo, CK: RuleResult):
+    """`check(x, y, dx)` compares |y| with f_tol / f_rtol and |dx| with x_tol / x_rtol.  y must therefore be (built from) the value of
+    the user's function at the very iterate x that is tested, and dx the last step, which is not: with the two swapped the caller's
+    f_tol is applied to the step, and a slowly moving iteration is declared converged while |f| is still above the tolerance."""
+    from ..rules.solverloop import find_check_call
+    chk = find_check_call(f)
+    if chk is None or len(chk.value.args) < 3:
+        CK.undecided(f, f.node, "cannot find the call <terminator>.check(x, y, dx) of %s" % f.qualname)
+        return
+    x, y, dx = chk.value.args[:3]
+    if not isinstance(x, ast.Name):
+        CK.undecided(f, chk, "cannot identify the iterate handed to check (%s)" % ast.unparse(x))
+        return
+    # definitions that textually follow the test inside its loop carry values of the *previous* iteration (y = ynew, xn = xnew): they are
+    # functions of the previous iterate, not of the one under test
+    loop = next((l for l in own_nodes(f.node) if isinstance(l, (ast.While, ast.For)) and any(n is chk for n in ast.walk(l))), None)
+    later = set()
+    if loop is not None:
+        seen_chk = False
+        order = []
+
+        def visit(body):
+            for st in body:
+                order.append(st)
+                for fld in ("body", "orelse", "finalbody"):
+                    sub = getattr(st, fld, None)
+                    if isinstance(sub, list) and not isinstance(st, (ast.FunctionDef, ast.Lambda)):
+                        visit(sub)
+                for h in getattr(st, "handlers", []) or []:
+                    visit(h.body)
+        visit(loop.body)
+        for st in order:
+            if seen_chk:
+                later.update(id(n) for n in ast.walk(st))
+            if any(n is chk for n in ast.walk(st)) and not any(n is chk for sub in ("body", "orelse") for b in (getattr(st, sub, None) or []) if isinstance(b, ast.AST) for n in ast.walk(b)):
+                seen_chk = True
+    defs = {k: [v for v in vs if id(v) not in later] for k, vs in function_defs(f.node).items()}
+
+    def f_at_x(e, depth=0, seen=None) -> Optional[bool]:
+        """does the expression involve a call that takes the iterate `x` as an argument (the function value at x)?  None: cannot tell"""
+        seen = seen if seen is not None else set()
+        unknown = False
+        for n in ast.walk(e):
+            if isinstance(n, ast.Call) and any(isinstance(a, ast.Name) and a.id == x.id for a in n.args) and not (isinstance(n.func, ast.Attribute) and n.func.attr in ("norm", "reshape", "clone", "detach")):
+                return True
+        for n in ast.walk(e):
+            if isinstance(n, ast.Name) and n.id != x.id and n.id not in seen and depth < 4:
+                seen.add(n.id)
+                for d in defs.get(n.id, []):
+                    if isinstance(d, ast.AST) and not isinstance(d, (ast.FunctionDef, ast.Lambda)):
+                        r = f_at_x(d, depth + 1, seen)
+                        if r:
+                            return True
+                        if r is None:
+                            unknown = True
+                    elif not isinstance(d, ast.AST):
+                        unknown = True
+        return None if unknown else False
+    ry, rdx = f_at_x(y), f_at_x(dx)
+    what = "%s: check(%s, %s, %s)" % (f.qualname, x.id, ast.unparse(y)[:40], ast.unparse(dx)[:40])
+    if rdx is True or ry is False:
+        CK.bad(f, chk, "the termination test receives its arguments in the wrong roles: check(x, y, dx) needs y = the function value at `%s` (tested against f_tol) and "
+               "dx = the step (tested against x_tol); here y = `%s` %s and dx = `%s` %s" % (
+                   x.id, ast.unparse(y)[:40], "involves f(%s)" % x.id if ry else "does not involve f(%s)" % x.id,
+                   ast.unparse(dx)[:40], "involves f(%s)" % x.id if rdx else "does not involve f(%s)" % x.id), what=what)
+    elif ry is True and rdx is False:
+        CK.ok(f.fq, what + ": y involves f(%s), dx does not" % x.id)
+    else:
+        CK.ok(f.fq, what + ": roles not contradicted (y: %s, dx: %s)" % (ry, rdx))
 
 
 def fwd_table_node(model: Model, name: str):
